@@ -27,8 +27,8 @@ func genWSnap(t *Tape) *WSnap {
 		TimestampNano: []uint64{0, 1, 946684800000000000, 1 << 63, 1<<64 - 1}[t.Choose("w-mts", 5)],
 		FromLmdbTxnID: []int64{0, 0, 5, 1 << 50}[t.Choose("w-from", 4)]}
 	ndbi := []int{0, 1, 2, 4}[t.Weighted("w-ndbi", []int{1, 5, 3, 1})]
-	sizes := []int{0, 1, 2, 100, 127, 128, 129, 511, 16383, 16384, 16385, 70000, 2097151, 2097152}
-	sizeW := []int{8, 10, 6, 6, 4, 4, 4, 3, 2, 2, 2, 1, 1, 1}
+	sizes := []int{0, 1, 2, 100, 127, 128, 129, 256, 384, 511, 512, 1024, 16383, 16384, 16385, 32768, 70000, 2097151, 2097152}
+	sizeW := []int{8, 10, 6, 6, 4, 4, 4, 3, 2, 3, 3, 2, 2, 2, 2, 1, 1, 1, 1}
 	for i := 0; i < ndbi; i++ {
 		d := WDBI{Name: fmt.Sprintf("dbi%d", i)}
 		switch t.Choose("w-name", 5) {
